@@ -163,5 +163,6 @@ def check(tier):
             ck.add_mutant(name, m, "kernel", "harness.C11", "kernel_job", dict(cases=[("sttv",)]))
         elif which == "step":
             ck.add_mutant(name, m, "step", "harness.steps", "volume_step", dict(cases=[(2, 2, 2, 0), (2, 2, 2, 1)], facets=FACETS))
+    ck.validate = ['volume_ssa']
     ck.run()
     return ck.finish(replay=REPLAY)
